@@ -17,12 +17,39 @@ import vt, cexpr
 from vt import Infra
 from cexpr import CT, OPS, lit, leaves, render
 
-STRIDE = 96
-FAMS = ["bin", "un", "cast", "cond", "init", "arg", "ret", "assign", "test", "opasg", "incdec", "d2l", "d2r"]
+STRIDE = 128
+FAMS = ["bin", "un", "cast", "cond", "init", "arg", "ret", "assign", "test", "opasg", "incdec", "d2l", "d2r",
+        "cc", "ccinit", "ccarg", "ccret", "ccassign", "ptr"]
+
+
+PTROP = {"pdiff": "-", "plt": "<", "ple": "<=", "pgt": ">", "pge": ">=", "peq": "==", "pne": "!="}
+
+
+def ptr_code(n, v):
+    """pointer family: p = base + k in an array of element type ELEM[es]"""
+    et, op = cexpr.ELEM[v["es"]], v["op"]
+    g = []
+    if op in PTROP:
+        body = "%s *p = (%s *)B + %sL, *q = (%s *)B + %sL; P(%d, p %s q);" % (et, et, v["k"], et, v["k2"], n, PTROP[op])
+    else:
+        it = CT[v["it"]]
+        g.append("static %s g%d = %s;" % (it, n, lit(v["it"], int(v["iv"]))))
+        m = n % 3
+        if op == "pradd":
+            ex = "g%d + p" % n
+        elif op == "padd":
+            ex = ["p + g%d", "(q = p, q += g%d)", "&p[g%d]"][m] % n
+        else:
+            ex = ["p - g%d", "(q = p, q -= g%d)", "p - g%d"][m] % n
+        body = "%s *p = (%s *)B + %sL, *q; PP(%d, %s);" % (et, et, v["k"], n, ex)
+    g.append("static void c%d(void) { %s }" % (n, body))
+    return "\n".join(g), "c%d();" % n
 
 
 def case_code(n, v):
     """-> (file-scope text, statement for main)"""
+    if v["f"] == "ptr":
+        return ptr_code(n, v)
     fam, e = v["f"], v["e"]
     lv = leaves(e)
     mode = n % 3 if fam not in ("arg", "ret") else (n % 2) * 2      # 0 var, 1 param, 2 call
@@ -68,7 +95,9 @@ def mkprog(cases):
         t, c = case_code(n, v)
         tops.append(t)
         calls.append(c)
-    return cexpr.PRELUDE + "\n".join(tops) + "\nint main(void) {\n" + "\n".join(calls) + "\nreturn 0; }\n"
+    ptr = any(v["f"] == "ptr" for _, v in cases)
+    return (cexpr.PRELUDE + (cexpr.PTR_PRELUDE if ptr else "") + "\n".join(tops) + "\nint main(void) {\n"
+            + (cexpr.PTR_INIT if ptr else "") + "\n".join(calls) + "\nreturn 0; }\n")
 
 
 def expected(v):
@@ -81,6 +110,11 @@ def expected(v):
 def classify(v, exp, got):
     """root-cause class of a disagreement"""
     fam = v["f"]
+    if fam == "ptr":
+        sh = "%s:elem%d:%s" % (v["op"], v["es"], v["it"])
+        if isinstance(got, tuple):
+            return "ptr:%s:crash-or-rejected" % sh
+        return "ptr:%s:%s" % (sh, "type" if got.get("v", [None] * 3)[1:] != exp["v"][1:] else "value")
     sh = cexpr.shape(v["e"])
     if fam in ("init", "arg", "ret", "assign"):
         sh = "%s<-%s" % (v["d"], sh)
@@ -103,7 +137,8 @@ def judge(ctx, tree, vecs, tag):
     bad = []
     for n, v in items:
         exp, got = expected(v), res.get(n)
-        ctx.note_case("%s|%s|%s|%s" % (v["f"], v["op"], v["d"], cexpr.const_text(v["e"])), nontrivial=v["f"] != "test")
+        ctx.note_case(cexpr.describe(v) if v["f"] == "ptr" else "%s|%s|%s|%s" % (v["f"], v["op"], v["d"], cexpr.const_text(v["e"])),
+                      nontrivial=v["f"] != "test")
         if isinstance(got, tuple) or any(got.get(k) != exp[k] for k in exp):
             bad.append((n, v, exp, got))
     if bad:          # tie-break: does the reference compiler agree with the spec on these?
@@ -124,8 +159,8 @@ def run(ctx):
     q = ctx.quick
     tree = ctx.build()
     ctx.phase("build done")
-    inv = ["TypeInv", "ValueInv", "ObjInv", "LoadInv", "SanityInv"]
-    shapes = '{"bin","un","cast","cond","asg","test","opasg","incdec"}'
+    inv = ["TypeInv", "ValueInv", "ObjInv", "LoadInv", "SanityInv", "PtrInv"]
+    shapes = '{"bin","un","cast","cond","cc","ptr","asg","test","opasg","incdec"}'
     cexpr.model_check(ctx, "ExprMC_quick.cfg" if q else "ExprMC.cfg",
                       "chibicc's typing/cast/register design does not compute the C11 value or type", inv,
                       workers=12 if q else 16, sensitivity="one" if q else True, Shapes=shapes)
@@ -134,7 +169,7 @@ def run(ctx):
     vec = cexpr.generate(ctx, FAMS, STRIDE if q else 1, 5 if q else 1, workers=12 if q else 16, minimum=2000, base=1, d2base=8)
     ctx.phase("gen done (%d vectors)" % len(vec))
     for v in vec[:: max(1, len(vec) // 4)][:4]:
-        ctx.sample(dict(kind="vector", family=v["f"], expr=cexpr.const_text(v["e"]), dest=v["d"], expected_ulong=v["u"],
+        ctx.sample(dict(kind="vector", family=v["f"], expr=cexpr.describe(v), dest=v.get("d"), expected_ulong=v["u"],
                         expected_sizeof=v["sz"], expected_signed=v["sg"]))
     vec = [v for v in vec if not v["dz"]]
     nbad = judge(ctx, tree, vec, "c01")
